@@ -16,7 +16,7 @@ import (
 // must sit in a scanner library-length helper (reached only after a byte was consumed:
 // rule S1d checks that on the automaton).
 func RuleU1(c *Ctx) {
-	sc := c.Run.Begin("U1", "every unsigned conversion of len(x)-K is dominated by a test that the length is at least K (scanner length helpers: discharged on the automaton, S1d)", 4)
+	sc := c.Run.Begin("U1", "every unsigned conversion of len(x)-K is dominated by a test that the length is at least K (scanner length helpers: discharged on the automaton, S1d)", 2)
 	defer sc.End()
 	m, _, merr := c.Machine()
 	counts := map[string]int{}
@@ -71,6 +71,8 @@ func RuleU1(c *Ctx) {
 			}
 			if cf.MustAt(call, gen, nil, kill) {
 				sc.Holds(key, pos, "dominated by a length test")
+			} else if why, ok := c.u1CallersTest(pk, fd, lenOf, k); ok {
+				sc.Holds(key, pos, why)
 			} else {
 				sc.Violation(key, pos, fmt.Sprintf("%s converts %s to an unsigned type with no test that the length is >= %d: for a shorter (empty) value it wraps to a huge number and the following index is out of range", types.ExprString(call.Fun), types.ExprString(sub), k))
 			}
@@ -451,4 +453,41 @@ func RuleIX1(c *Ctx) {
 			return true
 		})
 	})
+}
+
+// u1CallersTest: the measured value is a parameter the function does not reassign, and every
+// static caller reaches the call only after a test that its argument has at least k elements.
+func (c *Ctx) u1CallersTest(pk *pkgT, fd *ast.FuncDecl, lenOf ast.Expr, k int64) (string, bool) {
+	info := pk.TypesInfo
+	id, ok := ast.Unparen(lenOf).(*ast.Ident)
+	if !ok {
+		return "", false
+	}
+	obj := info.ObjectOf(id)
+	pidx := paramIndexOf(info, fd, obj)
+	if pidx < 0 || assignedAnywhere(info, fd.Body, obj) {
+		return "", false
+	}
+	self, _ := info.Defs[fd.Name].(*types.Func)
+	if self == nil || c.usedAsValue(self) {
+		return "", false
+	}
+	sites := c.callSitesOf(self)
+	if len(sites) == 0 {
+		return "", false
+	}
+	for _, cs := range sites {
+		if pidx >= len(cs.Call.Args) {
+			return "", false
+		}
+		cinfo := cs.Pk.TypesInfo
+		cf := c.CFG(cs.Pk, cs.Body)
+		arg := cs.Call.Args[pidx]
+		lenCall := &ast.CallExpr{Fun: ast.NewIdent("len"), Args: []ast.Expr{arg}}
+		gen := func(fa cfgx.Fact) bool { return impliesLenAtLeast(cinfo, cf, fa, arg, lenCall, k) }
+		if !cf.MustAt(cs.Call, gen, nil, nil) {
+			return "", false
+		}
+	}
+	return fmt.Sprintf("the value is a parameter and all %d callers test its length first", len(sites)), true
 }
